@@ -163,7 +163,70 @@ def gen_fill(rng, dyadic):
     return {"kind": "fill", "arr": arr, "mode": mode, "dyadic": dyadic, "as_list": rng.random() < 0.2}
 
 
+def gen_near_equal(rng, dyadic):
+    """round2 = round1 * (1 + eps_m), |eps_m| in [1e-6, 1e-2] of mixed sign, sum(round2) >= sum(round1):
+    variants: several lower months, a single slightly lower month, exactly equal totals, identical series"""
+    n = max(2, gen_len(rng))
+    variant = rng.choice(["mixed", "mixed", "single_lower", "exact_tie_total", "all_within_1e-4", "identical_but_one"])
+    if dyadic:
+        r1 = [float(rng.randint(256 * 64, 4096 * 64)) / 64.0 for _ in range(n)]
+    else:
+        r1 = [rng.uniform(5.0, 5000.0) for _ in range(n)]
+
+    def delta(v, hi=1e-2):
+        lo = 1e-6
+        if variant == "all_within_1e-4":
+            hi = 1e-4
+        e = 10 ** rng.uniform(-6, -2) if hi >= 1e-2 else 10 ** rng.uniform(-6, -4)
+        e = min(max(e, lo), hi * 0.99)
+        if dyadic:
+            return max(1, int(v * e * 64)) / 64.0
+        return v * e
+    sign = [rng.choice([1, 1, -1]) for _ in range(n)]
+    if variant in ("single_lower", "identical_but_one"):
+        sign = [1] * n
+        sign[rng.randrange(n)] = -1
+    if all(x > 0 for x in sign):
+        sign[rng.randrange(n)] = -1
+    d = [delta(v) for v in r1]
+    if variant == "identical_but_one":
+        k = sign.index(-1)
+        up = rng.choice([j for j in range(n) if j != k])
+        d = [(d[j] if j in (k, up) else 0.0) for j in range(n)]
+        d[up] = max(d[up], d[k]) if dyadic else max(d[up], d[k] * 1.5)
+        d[up] = min(d[up], r1[up] / 128.0)
+        d[k] = min(d[k], d[up])
+    r2 = [v + sg * dv for v, sg, dv in zip(r1, sign, d)]
+    if variant == "exact_tie_total" and dyadic:
+        # move exactly what the lower months lose into one higher month: totals are equal
+        lost = sum(dv for sg, dv in zip(sign, d) if sg < 0)
+        ups = [j for j in range(n) if sign[j] > 0] or [0]
+        r2 = [v - dv if sg < 0 else v for v, sg, dv in zip(r1, sign, d)]
+        share = int(lost * 64) // len(ups)
+        for j in ups:
+            r2[j] += share / 64.0
+        r2[ups[0]] += lost - (share / 64.0) * len(ups)
+    margin = 0.0 if dyadic else 1e-7 * sum(r1)   # floats: stay clear of a float-vs-exact tie of the sum test
+    tries = 0
+    while sum(r2) < sum(r1) + margin and tries < 4 * n:
+        tries += 1
+        neg = [j for j in range(n) if r2[j] < r1[j]]
+        if len(neg) <= 1:
+            j = max(range(n), key=lambda q: r1[q] if r2[q] >= r1[q] else -1)
+            r2[j] = r1[j] + min(r1[j] / 128.0, (sum(r1) - sum(r2)) + (1 / 64.0 if dyadic else 1e-6 * r1[j] + margin) + (r2[j] - r1[j]))
+            break
+        j = rng.choice(neg)
+        r2[j] = r1[j] + (r1[j] - r2[j])
+    if sum(r2) < sum(r1) + margin:
+        k = min(range(n), key=lambda q: r2[q] - r1[q])
+        r2 = [max(a, b) for a, b in zip(r1, r2)]
+        r2[k] = r1[k]
+    return {"kind": "redist", "r1": r1, "r2": r2, "mode": "near_equal:" + variant, "dyadic": dyadic}
+
+
 def gen_redist(rng, dyadic):
+    if rng.random() < 0.3:
+        return gen_near_equal(rng, dyadic)
     n = gen_len(rng)
     mode = rng.choice(["retimed_more", "retimed_more", "retimed_equal", "less", "identical", "random", "late_peak"])
 
@@ -413,6 +476,9 @@ def branch_tags(case, r):
             t.append("redist:None(sum1>sum2)")
         else:
             t.append("redist:retimed" if any(x < y for x, y in zip(case["r2"], case["r1"])) else "redist:nothing_to_move")
+            if (len(case["r1"]) == len(case["r2"]) and any(x < y for x, y in zip(case["r2"], case["r1"]))
+                    and all(abs(x - y) <= 1e-8 + 1e-2 * abs(y) for x, y in zip(case["r2"], case["r1"]))):
+                t.append("redist:retimed,all_months_within_1%")
             if abs(sum(case["r1"]) - sum(case["r2"])) == 0:
                 t.append("redist:equal_sums")
     elif k == "bump":
